@@ -104,6 +104,12 @@ def gen_world(rng, tier):
                               "resids": list(range(resid, resid + nres))})
             resid += nres
             atomid += n
+    if rng.random() < 0.2:
+        # a trajectory frame: every atom line carries velocity columns
+        vel = [[round(rng.uniform(-3, 3), 4) for _ in range(3)] for _ in lines]
+        lines = [l + "%8.4f%8.4f%8.4f" % tuple(v) for l, v in zip(lines, vel)]
+        for inst in instances:
+            inst["velocities"] = [vel[a - 1] for a in inst["atomids"]]
     text = gen.gro_text("system " + str(rng.randrange(1000)), lines, [10.0, 10.0, 10.0])
     return species, text, instances, large
 
@@ -145,8 +151,12 @@ def generate(rng, tier, focus):
             ops.append({"op": "load_fail", "kind": "absent", "species": rng.choice(absent)})
         elif c < 0.55:
             ops.append({"op": "load_fail", "kind": "unrelated"})
-        elif c < 0.8:
+        elif c < 0.7:
             ops.append({"op": "load_fail", "kind": "duplicate"})
+        elif c < 0.85 and present:
+            # every residue kind of the topology occurs in the file, but never as this run of residues
+            ops.append({"op": "load_fail", "kind": "no_such_run", "species": rng.choice(present),
+                        "how": rng.choice(["reverse", "append", "double", "prepend"]), "pick": rng.randrange(1000)})
         else:
             ops.append({"op": "load_fail", "kind": "other_atom_names", "species": rng.choice(present) if present else 0})
 
@@ -189,9 +199,68 @@ def mol_mismatch(mol, inst, species):
             return f"atom numbers {list(mol.atoms_ids)} != file {inst['atomids']}"
         if list(mol.resids) != inst["resids"]:
             return f"residue numbers {list(mol.resids)} != file {inst['resids']}"
+        if inst.get("velocities") is not None:
+            v = mol.atoms_velocities
+            if v is None or not np.array_equal(np.array(v), np.array(inst["velocities"])):
+                return "velocities differ from the file's"
     except Exception as e:
         return f"not a usable molecule: {e!r}"
     return None
+
+
+def _file_residues(text):
+    """[(residue name, atom count)] of the coordinate file, a new residue wherever number or name changes."""
+    lines = text.split("\n")
+    n = int(lines[1])
+    out = []
+    prev = None
+    for l in lines[2:2 + n]:
+        key = (l[0:5], l[5:10].strip())
+        if key != prev:
+            out.append([key[1], 0])
+            prev = key
+        out[-1][1] += 1
+    return [tuple(x) for x in out]
+
+
+def _no_such_run(species, op, text):
+    """A topology built from residue kinds that all occur in the file, whose sequence of residues occurs nowhere in it
+    (not even across molecule boundaries); None if the requested variant happens to occur."""
+    base = species[op["species"]]
+    kinds = {}
+    for sp in species:
+        pos = 0
+        for kn, size in sp["seq"]:
+            kinds.setdefault((kn, size), sp["atom_names"][pos:pos + size])
+            pos += size
+    seq = [tuple(k) for k in base["seq"]]
+    file_res = _file_residues(text)
+    in_file = [k for k in kinds if k in set(file_res)]
+    if not in_file:
+        return None
+    extra = in_file[op["pick"] % len(in_file)]
+    how = op["how"]
+    if how == "reverse":
+        new = seq[::-1]
+    elif how == "append":
+        new = seq + [extra]
+    elif how == "prepend":
+        new = [extra] + seq
+    else:
+        new = seq + seq
+    if any(k not in set(file_res) for k in new):
+        return None
+    L = len(new)
+    if any(file_res[i:i + L] == new for i in range(len(file_res) - L + 1)):
+        return None
+    names, resnames, resids = [], [], []
+    for r, k in enumerate(new):
+        names += list(kinds[k])
+        resnames += [k[0]] * k[1]
+        resids += [r + 1] * k[1]
+    n = len(names)
+    return {"name": "NORUN", "atom_names": names, "resnames": resnames, "resids": resids,
+            "edges": [[i, i + 1] for i in range(n - 1)], "seq": [list(k) for k in new]}
 
 
 def execute(trace, ctx):
@@ -395,6 +464,14 @@ def execute(trace, ctx):
                     if not loaded:
                         continue
                     path = itps[loaded[-1]]
+                elif fk == "no_such_run":
+                    cand = _no_such_run(species, op, trace["text"])
+                    if cand is None:
+                        continue
+                    path = os.path.join(d, f"norun{i}.itp")
+                    with open(path, "w") as f:
+                        f.write(gen.itp_text(cand))
+                    ctx.probe("topology_of_known_kinds_without_a_run")
                 else:
                     sp = dict(species[op["species"]])
                     if op["species"] in loaded:
@@ -410,6 +487,15 @@ def execute(trace, ctx):
                     ctx.fault("rejected_load:" + fk)
                 else:
                     ctx.op(kind, fk + ":accepted")
+                    if fk == "duplicate":
+                        # (whether a species whose runs are all taken still "has a matching run" is not said: a second load that
+                        # changes nothing is in order, one that adds molecules is not)
+                        ctx.probe("duplicate_load_accepted")
+                        if take_snapshot() != before:
+                            ctx.violate(P, "duplicate-load-changed-state", "loading a topology a second time changed what the "
+                                                                           "system reports", key=fk)
+                            return
+                        continue
                     ctx.violate(P, "bad-topology-accepted", f"a topology of kind '{fk}' with no matching run was accepted",
                                 key=fk)
                     return
